@@ -96,3 +96,21 @@ Section Run.
   Definition follow (a : nat) (atts : list (option (nat * bool))) : nat :=
     fold_left (fun a att => match att with Some (t, true) => t | _ => a end) atts a.
 End Run.
+
+(* ---- whole Ehrenfest and cumulative runs ---- *)
+Section RunX.
+  Context {T : Type} (O : Ops T).
+  Fixpoint run_eh (n : nat) (m : list T) (dt : T) (ds : list (sdata (T:=T))) (s : tstate (T:=T)) : tstate (T:=T) :=
+    match ds with
+    | [] => s
+    | d :: ds' => run_eh n m dt ds' (fst (step_eh O n m dt (de0 d) (de1 d) (dlam d) (dC d) s))
+    end.
+  Fixpoint run_cum (n : nat) (m : list T) (dt : T) (ds : list (sdata (T:=T))) (s : tstate (T:=T)) (c : cstate (T:=T))
+    : tstate (T:=T) * cstate (T:=T) * list (option (nat * bool)) :=
+    match ds with
+    | [] => (s, c, [])
+    | d :: ds' =>
+        let '(s1, c1, _, att) := step_cum O n m dt (de0 d) (de1 d) (dlam d) (dC d) s c in
+        let '(sf, cf, atts) := run_cum n m dt ds' s1 c1 in (sf, cf, att :: atts)
+    end.
+End RunX.
